@@ -15,11 +15,28 @@ use super::TaskExtra;
 macro_rules! dispatch_event {
     ($fn:ident, $event_name:ident, $(&$item:ident), +) => {
         let handles = $fn.$event_name.clone();
+        #[cfg(feature = "verif")]
+        if crate::verif::dispatch_armed() {
+            crate::verif::park_dispatch(
+                stringify!($event_name),
+                Box::new(move || {
+                    let handlers = handles.read().unwrap();
+                    for handle in handlers.iter() {
+                        (handle)($(&$item),+);
+                    }
+                }),
+            );
+            return;
+        }
+        #[cfg(feature = "verif")]
+        crate::verif::inflight_inc();
         Handle::current().spawn(async move {
             let handlers = handles.read().unwrap();
             for handle in handlers.iter() {
                 (handle)($(&$item),+);
             }
+            #[cfg(feature = "verif")]
+            crate::verif::inflight_dec();
         });
     };
 }
@@ -27,11 +44,28 @@ macro_rules! dispatch_event {
 macro_rules! dispatch_key_event {
     ($fn:ident, $event_name:ident, $(&$item:ident), +) => {
         let handles = $fn.$event_name.clone();
+        #[cfg(feature = "verif")]
+        if crate::verif::dispatch_armed() {
+            crate::verif::park_dispatch(
+                stringify!($event_name),
+                Box::new(move || {
+                    let handlers = handles.read().unwrap();
+                    for (_, handle) in handlers.iter() {
+                        (handle)($(&$item),+);
+                    }
+                }),
+            );
+            return;
+        }
+        #[cfg(feature = "verif")]
+        crate::verif::inflight_inc();
         Handle::current().spawn(async move {
             let handlers = handles.read().unwrap();
             for (_, handle) in handlers.iter() {
                 (handle)($(&$item),+);
             }
+            #[cfg(feature = "verif")]
+            crate::verif::inflight_dec();
         });
     };
 }
@@ -176,30 +210,40 @@ impl Emitter {
     }
 
     pub fn emit_start_event(&self, state: &Message) {
+        #[cfg(feature = "verif")]
+        crate::verif::on_gen("start", state);
         debug!("emit_start_event: {:?}", state);
         let e = Event::new(&self.runtime.read().unwrap(), state);
         dispatch_key_event!(self, starts, &e);
     }
 
     pub fn emit_complete_event(&self, state: &Message) {
+        #[cfg(feature = "verif")]
+        crate::verif::on_gen("complete", state);
         debug!("emit_complete_event: {:?}", state);
         let e = Event::new(&self.runtime.read().unwrap(), state);
         dispatch_key_event!(self, completes, &e);
     }
 
     pub fn emit_message(&self, msg: &Message) {
+        #[cfg(feature = "verif")]
+        crate::verif::on_gen("message", msg);
         debug!("emit_message: {:?}", msg);
         let e = Event::new(&self.runtime.read().unwrap(), msg);
         dispatch_key_event!(self, messages, &e);
     }
 
     pub fn emit_error(&self, state: &Message) {
+        #[cfg(feature = "verif")]
+        crate::verif::on_gen("error", state);
         debug!("emit_error: {:?}", state);
         let e = Event::new(&self.runtime.read().unwrap(), state);
         dispatch_key_event!(self, errors, &e);
     }
 
     pub fn emit_tick(&self) {
+        #[cfg(feature = "verif")]
+        crate::verif::on_gen_tick();
         let time_millis = utils::time::time_millis();
         debug!("emit_tick {time_millis}");
         dispatch_event!(self, ticks, &time_millis);
